@@ -281,7 +281,7 @@ impl Property for C01 {
         ]
     }
     fn cases(&self, tier: Tier) -> usize {
-        tier.pick(1500, 20_000)
+        tier.pick(1500, 60_000)
     }
     fn strategy(&self, tier: Tier) -> BoxedStrategy<Case> {
         let max_layers = tier.pick(2usize, 3usize);
